@@ -32,7 +32,7 @@ RULE = ("each run draws a transport mode (plain / stdlib TLS / PyOpenSSL TLS), a
         "twice - unsegmented baseline and segmented variant - and compared. distinct = distinct "
         "time-stripped delivery signatures of the variant; non-trivial = the variant delivered the "
         "client bytes in >= 2 reads")
-PROBES = ["cut_inside_multibyte_character", "data_after_dispatch", "cut_inside_crlf", "cut_at_titan_size", "handshake_coalesced",
+PROBES = ["client_closes_right_after_upload", "cut_inside_multibyte_character", "data_after_dispatch", "cut_inside_crlf", "cut_at_titan_size", "handshake_coalesced",
           "titan_dispatch", "late_extra_reads", "real_upload_handler",
           "client_closes_right_after_request"]
 COMPONENTS = {
@@ -297,6 +297,16 @@ def run_one(ch):
             ch.chance("early_close", 0.3):
         cfg["early_close"] = True
         res.stats["client_closes_right_after_request"] += 1
+    # a client that leaves right behind a completely sent upload: whether the response still
+    # reaches it is a matter of timing, but the EFFECT of the upload (handler invoked once with
+    # the content, file stored) must not depend on how the bytes were split into reads
+    # (without a chain: whether a chain still decides for a peer that has already left is
+    # a race between the disconnect and the chain, not a matter of segmentation)
+    if kind == 2 and cfg["upload"] in ("spy", "real") and cfg["slowmw"] is None and \
+            ch.chance("early_close_upload", 0.25):
+        cfg["early_close"] = True
+        cfg["effects_only"] = True
+        res.stats["client_closes_right_after_upload"] += 1
     _FLAGS.clear()
     base = run_case(ch, cfg, False, fresh_dir("c07a"))
     var = run_case(ch, cfg, True, fresh_dir("c07b"))
@@ -312,7 +322,7 @@ def run_one(ch):
             res.violate(f"C07/{which}-invoked-more-than-once/{mode}",
                         f"{name}: {o['n_h']} request-handler and {o['n_u']} upload-handler "
                         f"invocations on one connection", **ctx)
-    if base["rx"] != var["rx"]:
+    if base["rx"] != var["rx"] and not cfg.get("effects_only"):
         res.violate(f"C07/response-depends-on-segmentation/{mode}",
                     "bytes received by the client differ between the single-read baseline and "
                     "the segmented delivery of the same request bytes",
